@@ -229,4 +229,117 @@ example :
       .helper "cmp_slice" .slice .slice .partialCmp .other .self false "" "", "", ""⟩ = false := by
   decide +kernel
 
+/-! ## The path view is what std's loop computes; `components` is canonical -/
+
+/-- The statement-by-statement transcription of std's `<Path as Hash>::hash` byte loop
+    (`pathHashLoop`: separators skipped, `.` after a separator skipped, `chunk_bits` folded and written
+    last) feeds the hasher exactly the stream `hashStreamV .path` defines on `components`, for every
+    byte string. So `eq_hash` for the path view speaks about the loop std actually runs. -/
+theorem path_hash_loop_eq (bs : List UInt8) : pathHashLoop bs = hashStreamV .path bs :=
+  pathHashLoop_eq bs
+
+/-- `Path`s that are `==` feed std's hash loop the same stream (`Eq`/`Hash` coherence of `Path`,
+    hence of `HipPath`, for the real algorithm). -/
+theorem eq_hash_path_loop (x y : List UInt8) (h : eqV .path x y = true) :
+    pathHashLoop x = pathHashLoop y := by
+  rw [pathHashLoop_eq, pathHashLoop_eq]
+  exact eqV_hash .path x y h
+
+/-- Path equality is equality of `components` (and so is `cmp = Equal`). -/
+theorem path_eq_iff_components (x y : List UInt8) :
+    (eqV .path x y = true ↔ components x = components y) ∧
+    (cmpV .path x y = .eq ↔ components x = components y) :=
+  ⟨by simp [eqV], by rw [← eqV_iff_cmpV]; simp [eqV]⟩
+
+/-- Trailing-separator law: for a non-empty path, `x/` has the components of `x`
+    (so `HipPath("a/") == HipPath("a")`, same `cmp`, same hash). -/
+theorem components_trailing_sep (x : List UInt8) (hx : x ≠ []) :
+    components (x ++ [SEP]) = components x :=
+  components_trailing_sep' x hx
+
+/-- The hypothesis is needed and satisfiable: `""` has no components while `"/"` is `[RootDir]`;
+    `"a/"` and `"a"` agree. -/
+example : components ([] ++ [SEP]) ≠ components [] ∧ components ([97] ++ [SEP]) = components [97] := by
+  decide
+
+/-- A trailing `/.` is ignored for a non-empty path. -/
+theorem components_trailing_dot (x : List UInt8) (hx : x ≠ []) :
+    components (x ++ [SEP, DOT]) = components x :=
+  components_trailing_dot' x hx
+
+/-- An interior `.` is ignored: `x/./y` has the components of `x/y` (any `x`, `y`, including empty). -/
+theorem components_interior_dot (x y : List UInt8) :
+    components (x ++ SEP :: DOT :: SEP :: y) = components (x ++ SEP :: y) :=
+  components_interior_dot' x y
+
+/-- Repeated separators are ignored: `x//y` has the components of `x/y`. -/
+theorem components_repeated_sep (x y : List UInt8) :
+    components (x ++ SEP :: SEP :: y) = components (x ++ SEP :: y) :=
+  components_repeated_sep' x y
+
+/-- But a *leading* `.` is kept (`CurDir`), and `..` is never resolved: canonical ≠ normalised. -/
+example : components [DOT, SEP, 97] ≠ components [97] ∧
+    components [97, SEP, DOT, DOT, SEP, 98] ≠ components [98] := by decide
+
+/-! ## Map lookups through `Borrow` -/
+
+/-- For every `Borrow` row accepted by `borrowOk` — owner views `ve` (`==`), `vo` (`cmp`), `vh`
+    (`hash`), target views `tv = stdView target target`, `hashViewOf target` — and every stored key
+    `k` and query `q` (as byte strings):
+    * if the owner considers them equal (`k == q`), then `q.borrow()` feeds the hasher the stream
+      `k` fed when it was inserted (same hash under any `Hasher`, so the probe reaches `k`'s bucket)
+      and `q.borrow() == k.borrow()`: `HashMap<Owner,_>::get(q.borrow())` finds the entry;
+    * a hit through the borrowed form is a hit for the owner (no false positives);
+    * the borrowed form orders `q` against `k` exactly like the owner, so `BTreeMap::get` walks the
+      same path. -/
+theorem borrow_lookup_finds : ∀ b ∈ borrows, borrowOk genEnv b = true →
+    ∃ ve vo vh tv,
+      genEnv.ownerView .partialEq b.owner = some ve ∧ genEnv.ownerView .ord b.owner = some vo ∧
+      genEnv.ownerView .hash b.owner = some vh ∧ stdView b.target b.target = some tv ∧
+      ∀ k q,
+        (eqV ve k q = true →
+          hashStreamV (hashViewOf b.target) q = hashStreamV vh k ∧ eqV tv q k = true) ∧
+        (eqV tv q k = true → eqV ve k q = true) ∧
+        cmpV tv q k = cmpV vo q k := by
+  intro b _ hok
+  obtain ⟨ve, vo, vh, tv, h1, h2, h3, h4, hall⟩ := borrowOk_sound genEnv b hok
+  obtain ⟨ve', _, _, vh', g1, _, _, g4, gall⟩ := hip_eq_ord_hash_coherent b.owner
+  have e1 : ve' = ve := Option.some.inj (g1.symm.trans h1)
+  have e4 : vh' = vh := Option.some.inj (g4.symm.trans h3)
+  subst e1 e4
+  refine ⟨ve', vo, vh', tv, h1, h2, h3, h4, fun k q => ⟨fun hkq => ⟨?_, ?_⟩, fun hqk => ?_, ?_⟩⟩
+  · rw [← (hall q q).2.2, ← (gall k q).2.2 hkq]
+  · rw [← (hall q k).1, eqV_symm]; exact hkq
+  · rw [(hall k q).1, eqV_symm]; exact hqk
+  · exact ((hall q k).2.1).symm
+
+/-
+FULL STATEMENT (false because of D7 / D8):
+theorem borrow_lookup_finds_all : ∀ b ∈ borrows, <conclusion of borrow_lookup_finds>
+-/
+
+/-- `borrow_lookup_finds` instantiated for the five coherent rows (`Borrow<[u8]>`/`Borrow<BStr>`
+    for `HipByt`, `Borrow<str> for HipStr`, `Borrow<OsStr> for HipOsStr`, `Borrow<Path> for HipPath`):
+    `HashMap`/`BTreeMap` lookups through them find exactly the owner's entries.
+    Missing for the full statement: the two known-finding rows, where lookups miss (D7, D8). -/
+theorem borrow_lookup_finds_partial : ∀ b ∈ borrows, b.isKnownFinding = false →
+    ∃ ve vo vh tv,
+      genEnv.ownerView .partialEq b.owner = some ve ∧ genEnv.ownerView .ord b.owner = some vo ∧
+      genEnv.ownerView .hash b.owner = some vh ∧ stdView b.target b.target = some tv ∧
+      ∀ k q,
+        (eqV ve k q = true →
+          hashStreamV (hashViewOf b.target) q = hashStreamV vh k ∧ eqV tv q k = true) ∧
+        (eqV tv q k = true → eqV ve k q = true) ∧
+        cmpV tv q k = cmpV vo q k := by
+  have h : ∀ b ∈ borrows, b.isKnownFinding = false → borrowOk genEnv b = true := by decide +kernel
+  exact fun b hb hk => borrow_lookup_finds b hb (h b hb hk)
+
+/-- The five rows, by name, and a non-trivial instance of the hypothesis `k == q`: for
+    `Borrow<Path> for HipPath`, `k = "a/"`, `q = "a"` are equal keys with different bytes. -/
+example :
+    (borrows.filter (!·.isKnownFinding)).map (fun b => (b.owner, b.target)) =
+      [(.byt, .bstr), (.byt, .slice), (.os, .osStr), (.path, .path), (.str, .str)] ∧
+    eqV .path [97, 47] [97] = true ∧ ([97, 47] : List UInt8) ≠ [97] := by
+  decide +kernel
+
 end HipVerif.Props.C12
